@@ -5,6 +5,13 @@ open DV DV.Proto
 
 def bad : String := "bad-op"
 
+/-- float64 values compared like Python floats (`+0.0 == -0.0`), added like floats -/
+structure FB where
+  bits : UInt64
+  deriving DecidableEq
+def FB.norm (x : Float) : FB := if x == 0.0 then ⟨(0.0 : Float).toBits⟩ else ⟨x.toBits⟩
+instance : Add FB := ⟨fun a b => FB.norm (Float.ofBits a.bits + Float.ofBits b.bits)⟩
+
 def parsePair? (s : String) : Option (Float × Float) :=
   match s.splitOn ":" with
   | [a, b] => do let a ← parseFloatBits? a; let b ← parseFloatBits? b; pure (a, b)
@@ -282,6 +289,29 @@ def stepLine (line : String) : String :=
       if d == 0 then "pole" else
       s!"{showRat ((P.1 * Q.1 + P.2 * Q.2) / d)} {showRat ((P.2 * Q.1 - P.1 * Q.2) / d)}"
     | _, _, _ => bad
+  -- slopecache <call>;<call>;...   call = t:ytoken:c|a:h1,h2,..|-:endtoken1,endtoken2,..|-   -> reuse decisions 0/1
+  | ["slopecache", calls] =>
+    let parseCall (c : String) : Option (FB × String × SlopeCache.Ending FB × List (FB × String)) :=
+      match c.splitOn ":" with
+      | [t, y, kind, hs, es] =>
+        let hl := if hs == "-" then some [] else parseList? parseFloatBits? hs
+        let el := if es == "-" then [] else es.splitOn ","
+        match parseFloatBits? t, hl with
+        | some t, some hl =>
+          if hl.length != el.length then none else
+          let hb := hl.map FB.norm
+          some (FB.norm t, y, (if kind == "c" then SlopeCache.Ending.completed hb else SlopeCache.Ending.abandoned hb), List.zip hb el)
+        | _, _ => none
+      | _ => none
+    match (calls.splitOn ";").mapM parseCall with
+    | none => bad
+    | some cs =>
+      let (_, flags) := cs.foldl (fun (acc : SlopeCache.Cache FB String Unit × List String) c =>
+        let (t, y, e, table) := c
+        let adv : FB → String → FB → String := fun _ _ h => ((table.find? (fun p => p.1 == h)).map (·.2)).getD "?"
+        let o := SlopeCache.call (fun _ _ => ()) adv acc.1 t y e
+        (o.cache, acc.2 ++ [if o.reused then "1" else "0"])) (SlopeCache.empty, [])
+      ",".intercalate flags
   -- dense <backward 0/1> <q> <tEval> : find_interval / find_interval_vec
   | ["dense", b, q, ts] =>
     match parseFloatBits? q, parseList? parseFloatBits? ts with
